@@ -368,6 +368,10 @@ def run_check(tier, seed):
                 if p[0] == "CALL":
                     ncalls += 1
                     entry_calls[p[3]] += 1
+                elif p[0] == "ENV":
+                    if p[2]:
+                        probes["sessions_with_environment_switches_set:"
+                               + ",".join(p[3])] += 1
                 elif p[0] == "KNOWNHIT":
                     probes["known_finding_met:" + p[3]] += 1
                 elif p[0] == "KERR":
